@@ -201,6 +201,7 @@ type world struct {
 	states       [numStates]*evmState
 	truths       [numStates][]ref // facts that hold in A's storage per state (canonical, non-zero values)
 	junk         []common.Hash    // junk slots of A in stOld
+	tiny         int              // 0 normal; 1: A holds only P0,P2,P3; 2: A holds only commit(P0)
 	foreign      *evmState        // unrelated state: source of foreign nodes
 	nAccounts    int
 	nSlotsA      int
@@ -343,6 +344,12 @@ func newWorld(rng *rand.Rand, id string) *world {
 
 	nFill := pick(rng, []int{0, 0, 1, 2, 5, 16, 40, 120, 298})
 	nJunk := pick(rng, []int{0, 0, 1, 2, 7, 30, 90, 200})
+	switch rng.Intn(8) {
+	case 0:
+		w.tiny, nJunk = 1, 0
+	case 1:
+		w.tiny, nJunk = 2, 0
+	}
 
 	base := &evmState{accounts: map[common.Address]*account{}}
 	for i := 0; i < nFill; i++ {
@@ -424,6 +431,12 @@ func newWorld(rng *rand.Rand, id string) *world {
 			if i >= 7 {
 				rp := randomPresence[[2]int{st, i}]
 				c, k = rp[0], rp[1]
+			}
+			if w.tiny == 1 && i != 0 && i != 2 && i != 3 {
+				c, k = false, false
+			}
+			if w.tiny == 2 {
+				c, k = i == 0, false
 			}
 			w.setPacket(a, p, c, k)
 		}
